@@ -1637,10 +1637,12 @@ class Analyzer:
             ok = ok and (rt in ('float', 'double') or bool(int_type_range(rt)))
             if ok:
                 for nd in G.ex.values():
+                    if nd['k'] == 'call' and nd['callee'].get('d') in ('fabs', 'fabsf', 'abs', 'labs'):
+                        continue            # value functions of the C library: no effect, result modelled by lib_call
                     if nd['k'] == 'call' or nd['k'] in ('member', 'sub') or (nd['k'] == 'un' and nd['op'] in ('*', '&')):
                         ok = False
                         break
-                    if nd['k'] == 'ref' and nd['decl'].get('kind') not in ('var', 'param'):
+                    if nd['k'] == 'ref' and nd['decl'].get('kind') not in ('var', 'param') and nd['decl'].get('name') not in ('fabs', 'fabsf', 'abs', 'labs'):
                         ok = False
                         break
             G._purescalar = ok
@@ -1761,9 +1763,10 @@ class Analyzer:
         if name in ('strlen',):
             # provenance tag: a length of a caller-supplied C string (kept through +, -, * with constants and other lengths)
             return V(0, 2 ** 63 - 1, tag='strlen')
-        if name in ('abs', 'labs'):
+        if name in ('abs', 'labs', 'fabs', 'fabsf'):
             a = avals[0]
-            return V(0, max(abs(a.lo), abs(a.hi)))
+            lo_ = 0 if a.lo <= 0 <= a.hi else min(abs(a.lo), abs(a.hi))
+            return V(lo_, max(abs(a.lo), abs(a.hi)))
         if name in ('oggpack_bytes',):
             return V(0, 2 ** 62, le=frozenset({'oggpack_buffer.storage'}))
         if name in ('oggpack_write', 'oggpack_adv', 'oggpack_readinit', 'oggpack_writeinit', 'oggpack_writeclear',
@@ -1805,6 +1808,17 @@ class Analyzer:
             tmp = env.get('$tmp') or {}
             va = tmp.get(a) if a in tmp else self.peek(env, a)
             vb = tmp.get(b) if b in tmp else self.peek(env, b)
+            # |x| < c, |x| <= c: x lies in [-c, c]
+            for side, other, o in ((a, vb, op), (b, va, {'<': '>', '<=': '>=', '>': '<', '>=': '<='}.get(op, op))):
+                sn = self.ex[self.F.strip_casts(side)]
+                if sn['k'] == 'call' and sn['callee'].get('d') in ('fabs', 'fabsf', 'abs', 'labs') and o in ('<', '<=') and sn.get('c') \
+                        and other.hi != INF:
+                    x_ = sn['c'][0]
+                    vx = tmp.get(x_) if x_ in tmp else self.peek(env, x_)
+                    nx = vx.copy(lo=max(vx.lo, -other.hi), hi=min(vx.hi, other.hi))
+                    if nx.is_bottom():
+                        return None
+                    self.assign_refined(env, x_, vx, nx)
             sa, sb = self.sym_of(a, env), self.sym_of(b, env)
             # symbolic contradiction: a op b against what is already known about a and b
             if self.sym_contradiction(va, sa, op, vb, sb):
